@@ -67,10 +67,55 @@ let fuel_infer = nat_of_int 400
 let certify (t : term) : term option = infer fuel_infer [] t
 let conv_ok (a : term) (b : term) : bool option = convb fuel_infer [] a b
 
+(* When the verified checker returns None, WHY: a transliteration of `infer` (Oracle/Infer.v) with a three-valued answer.
+   It is used only to tell "rejected" (a conversion test answered false / a head is not a function type) from "out of
+   fuel" (deep terms, types without a normal form); a certificate is only ever the verified checker's own `Some`. *)
+type why = WOk of term | WReject | WFuel
+let rec infer3 (fuel : int) (g : ctx0) (t : term) : why =
+  if fuel <= 0 then WFuel else
+  let f = fuel - 1 in
+  let nf' = nat_of_int f in
+  let cv a b k = (match convb nf' g a b with Some true -> k () | Some false -> WReject | None -> WFuel) in
+  let cvg g' a b k = (match convb nf' g' a b with Some true -> k () | Some false -> WReject | None -> WFuel) in
+  let bind1 x k = (match x with WOk v -> k v | WReject -> WReject | WFuel -> WFuel) in
+  match t with
+  | THole _ | TType | TInt | TBool -> WOk TType
+  | TTrue | TFalse -> WOk TBool
+  | TLit _ -> WOk TInt
+  | TVar i -> (match lookup_ty g i with Some ty -> WOk ty | None -> WReject)
+  | TLam (im, d, b) ->
+    bind1 (infer3 f g d) (fun td -> cv td TType (fun () -> bind1 (infer3 f (bind g d) b) (fun bt -> WOk (TPi (im, d, bt)))))
+  | TPi (_, d, b) ->
+    bind1 (infer3 f g d) (fun td -> cv td TType (fun () ->
+        bind1 (infer3 f (bind g d) b) (fun tb -> cvg (bind g d) tb TType (fun () -> WOk TType))))
+  | TApp (a, b) ->
+    bind1 (infer3 f g a) (fun fty ->
+        match whnf nf' g fty with
+        | None -> WFuel
+        | Some (TPi (false, a', b')) -> bind1 (infer3 f g b) (fun ta -> cv ta a' (fun () -> WOk (open0 b' O b O)))
+        | Some _ -> WReject)
+  | TLet (ds, b) ->
+    let g' = enter ds g in
+    let rec defs l = (match l with
+        | [] -> bind1 (infer3 f g' b) (fun bt -> WOk (group_type (length ds) ds O (length ds) bt))
+        | (a, d) :: r ->
+          bind1 (infer3 f g' a) (fun ta -> bind1 (infer3 f g' d) (fun td ->
+              cvg g' ta TType (fun () -> cvg g' td a (fun () -> defs r))))) in
+    defs ds
+  | TNeg a -> bind1 (infer3 f g a) (fun ta -> cv ta TInt (fun () -> WOk TInt))
+  | TBin (o, a, b) ->
+    bind1 (infer3 f g a) (fun ta -> bind1 (infer3 f g b) (fun tb -> cv ta TInt (fun () -> cv tb TInt (fun () -> WOk (bin_ty o)))))
+  | TIf (c, a, b) ->
+    bind1 (infer3 f g c) (fun tc -> bind1 (infer3 f g a) (fun ta -> bind1 (infer3 f g b) (fun tb ->
+        cv tc TBool (fun () -> cv tb ta (fun () -> WOk ta)))))
+
 (* `t` has type `ty` according to the proved checker: Some true / Some false / None = out of fuel *)
 let validate (t : term) (ty : term) : [ `Valid | `Illtyped of string | `Fuel ] =
   match certify t with
-  | None -> `Illtyped "the verified checker rejects the term (or ran out of fuel)"
+  | None ->
+    (match infer3 400 [] t with
+     | WReject -> `Illtyped "the verified checker rejects the term"
+     | WFuel | WOk _ -> `Fuel)
   | Some ty' ->
     (match conv_ok ty' ty with
      | Some true -> `Valid
